@@ -56,7 +56,29 @@ def main():
             out.append(rec)
             continue
         try:
-            res = core.explore(lambda ctx: h.fn(ctx, cfg), export=export, max_seconds=job.get("max_seconds", 900))
+            # hard wall-clock limit per harness: a path that never ends (a loop of the code under test that no longer terminates on symbolic input) is an
+            # undecided harness, never a hanging check
+            import signal
+
+            class HarnessTimeout(BaseException):
+                pass
+
+            def _alarm(signum, frame):
+                raise HarnessTimeout()
+            limit = int(job.get("max_seconds", 900))
+            signal.signal(signal.SIGALRM, _alarm)
+            signal.alarm(limit + 30)
+            try:
+                res = core.explore(lambda ctx: h.fn(ctx, cfg), export=export, max_seconds=limit)
+            except HarnessTimeout:
+                signal.alarm(0)
+                rec.update(paths=0, queries=0, obligations=[], smt2=[], undecided_reason="time budget exceeded (%ss): one path did not end" % limit)
+                rec["wall_s"] = round(time.time() - t0, 3)
+                rec["rewrites"] = [list(r) for r in rewrite.REWRITE_LOG]
+                out.append(rec)
+                continue
+            finally:
+                signal.alarm(0)
             rec.update(paths=res.paths, queries=res.queries, undecided_reason=res.undecided_reason,
                        obligations=[o.to_json() for o in res.obs.values()],
                        smt2=[{"name": o.name, "z3": r, "text": t} for o in res.obs.values() for (r, t) in o.smt2])
